@@ -11,7 +11,7 @@ import (
 )
 
 func init() {
-	props["C01"] = &propDef{run: runC01, explanation: "Structural clause of C01 decided statically: the applier's per-step transition function. (T1) Apply dispatches exactly the four operation types to four distinct functions and refuses everything else; (G1) create is gated on an empty previous state, the others on an existing one; (R1) every refusing return carries a nil model and every accepting return carries a model allocated in that call; (P1) per-field provenance of the returned ResolutionModel equals the Sidetree v1 table (which object of (operation, previous model) each of the 15 fields is copied from, per type); (G2) the conditional installs (update commitment, patched document) lie behind exactly the documented checks on every CFG path (delta hash, delta validation, anchoring window, patch application) and (G3) after the documented 'advance from here' point no path refuses. Because each accepted step builds a fresh model from (operation, previous model) only, the fold over any history is determined by these per-step facts. Not decided: that the callees (hashing, parser, composer) compute what they should — see C02/C03/C06/C07/C09/C10. The C09 window rules (predicate decided on all weak orderings, wiring into the apply functions) run inside this check as well. The acceptance conditions of C02 are refusal classes of the fold and run inside this check, as does the rule that ApplyPatches does not write the document it is given (C12.E1); an ApplyPatches call that sits in a helper must hand the composer's verdict back unchanged. The composer's own refusals of a validated JSON patch are the closed set of C10; the copy guard's token-count comparison is decided on the three orderings of the two counts. ApplyPatches is a left fold over the whole list (C10.P1 runs here too). All of C10 and of C07 run inside this check; a tail of an apply function moved into an unexported helper is followed (events and stores through the object it is handed)."}
+	props["C01"] = &propDef{extraPkgs: []string{jsonPatchPkg}, run: runC01, explanation: "Structural clause of C01 decided statically: the applier's per-step transition function. (T1) Apply dispatches exactly the four operation types to four distinct functions and refuses everything else; (G1) create is gated on an empty previous state, the others on an existing one; (R1) every refusing return carries a nil model and every accepting return carries a model allocated in that call; (P1) per-field provenance of the returned ResolutionModel equals the Sidetree v1 table (which object of (operation, previous model) each of the 15 fields is copied from, per type); (G2) the conditional installs (update commitment, patched document) lie behind exactly the documented checks on every CFG path (delta hash, delta validation, anchoring window, patch application) and (G3) after the documented 'advance from here' point no path refuses. Because each accepted step builds a fresh model from (operation, previous model) only, the fold over any history is determined by these per-step facts. Not decided: that the callees (hashing, parser, composer) compute what they should — see C02/C03/C06/C07/C09/C10. The C09 window rules (predicate decided on all weak orderings, wiring into the apply functions) run inside this check as well. The acceptance conditions of C02 are refusal classes of the fold and run inside this check, as does the rule that ApplyPatches does not write the document it is given (C12.E1); an ApplyPatches call that sits in a helper must hand the composer's verdict back unchanged. The composer's own refusals of a validated JSON patch are the closed set of C10; the copy guard's token-count comparison is decided on the three orderings of the two counts. ApplyPatches is a left fold over the whole list (C10.P1 runs here too). All of C10 and of C07 run inside this check; a tail of an apply function moved into an unexported helper is followed (events and stores through the object it is handed)."}
 }
 
 func runC01(c *Ctx) {
@@ -443,7 +443,7 @@ func runC01(c *Ctx) {
 	runC10(c)
 	// the fold refuses an operation whose request is ill-formed: the applier parses every operation in batch mode, and
 	// what the parser accepts there (well-formed multihashes, key and header rules, size limits) is the subject of C07
-	runC07(c)
+	// (run as part of C02 above)
 }
 
 func numFields(n *types.Named) int {
